@@ -232,8 +232,63 @@ def shared_config() -> Optional[str]:
     return None
 
 
+def odd_equality_arguments() -> Optional[str]:
+    """Strictness does not depend on what an argument claims to equal: a value whose __eq__ says yes to everything (or
+    raises, or answers with a list) is not None and not an int - it is rejected before the body runs, as an argument
+    and (for `-> None` / `-> Optional[int]`) as a return value."""
+    import typing
+    from koda_validate.signature import InvalidArgsError, InvalidReturnError, validate_signature
+    from ..corr import drive
+    from .hist import _AlwaysEqual, _EqNotBool, _EqRaises
+    anns = [("Optional[int]", typing.Optional[int]), ("None", None), ("List[Optional[int]]", typing.List[typing.Optional[int]]),
+            ("Union[None, str]", typing.Union[None, str])]
+    for is_async in (False, True):
+        for label, T in anns:
+            for val in (_AlwaysEqual(), _EqRaises(), _EqNotBool()):
+                x = [val] if label.startswith("List") else val
+                ran: list = []
+                if is_async:
+                    async def f(a):
+                        ran.append(a)
+                        return a
+                else:
+                    def f(a):  # type: ignore[misc]
+                        ran.append(a)
+                        return a
+                f.__annotations__ = {"a": T}
+                try:
+                    r = validate_signature(f)(x)
+                    r = drive(r) if is_async else r
+                    exc = None
+                except BaseException as e:  # noqa
+                    r, exc = None, e
+                if type(exc) is not InvalidArgsError or ran:
+                    return (f"{'async ' if is_async else ''}f(a: {label}) called with {x!r}: expected InvalidArgsError before the body runs; "
+                            f"ended with {exc!r}, returned {r!r}, the body saw {ran!r}")
+                # as a return value
+                if is_async:
+                    async def g():
+                        return x
+                else:
+                    def g():  # type: ignore[misc]
+                        return x
+                g.__annotations__ = {"return": T}
+                try:
+                    r = validate_signature(g)()
+                    r = drive(r) if is_async else r
+                    exc = None
+                except BaseException as e:  # noqa
+                    r, exc = None, e
+                if type(exc) is not InvalidReturnError:
+                    return f"{'async ' if is_async else ''}g() -> {label} returning {x!r}: expected InvalidReturnError; ended with {exc!r}, the caller got {r!r}"
+    return None
+
+
 def run(tier: str, rng: random.Random, proof_ok: bool) -> dict:
     rep = C08.run(tier, rng, proof_ok, oracle_fn=oracle, name="C09")
+    oe = odd_equality_arguments()
+    if oe:
+        rep["violations"].append({"kind": "oracle", "signature": "C09:odd-equality", "what": oe, "replay_case": {"odd_equality": True}})
     sc = shared_config()
     if sc:
         rep["violations"].append({"kind": "oracle", "signature": "C09:shared-configuration", "what": sc, "replay_case": {"shared_config": True}})
@@ -247,6 +302,10 @@ def run(tier: str, rng: random.Random, proof_ok: bool) -> dict:
 def replay(path: str) -> int:
     j = json.load(open(path))
     cj = j.get("replay_case") or {}
+    if cj.get("odd_equality"):
+        r = odd_equality_arguments()
+        print("property violated: " + r if r else "property holds for arguments with unusual equality")
+        return 1 if r else 0
     if cj.get("shared_config"):
         r = shared_config()
         print("property violated: " + r if r else "property holds for a configured decorator applied to several functions")
